@@ -32,6 +32,10 @@ def correspond(ctx, scale=1):
     for code in list(range(14)) + [-1, 14, 1000]:
         cases.append("NULLSIZE %d 0 100" % code)
         cases.append("NULLSIZE %d 0 %d" % (code, 70000))
+    # every failure must also report *size = 0: intervals whose result array cannot be allocated (all type codes), and invalid codes
+    for code in list(range(14)) + [-1, 14]:
+        cases.append("PRESIZE %d 0 %d" % (code, MAX64))
+        cases.append("PRESIZE %d %d %d" % (code, 10 ** 15, 2 * 10 ** 18))
     sh = ps.shard(cases)
     outs = ps.par_run(probe, ["\n".join(c for _, c in s) + "\n" for s in sh], timeout=600)
     mismatches, samples, sigs = [], [], set()
@@ -72,6 +76,11 @@ def correspond(ctx, scale=1):
                 sigs.add(("itererr", len(primes), k))
                 if a != want:
                     bad = "iterator history after the error: observed %r, expected %r" % (a[:300], want[:300])
+            elif t[0] == "PRESIZE":
+                want = "null size=0 errno=EDOM"
+                sigs.add(("presize", int(t[1]), int(t[2]) == 0))
+                if a != want:
+                    bad = "a request that cannot be satisfied must return NULL with *size = 0 and errno = EDOM: observed %r" % a
             else:
                 code, y = int(t[1]), int(t[3])
                 ty = C06.CODES.get(code)
@@ -82,7 +91,7 @@ def correspond(ctx, scale=1):
                     bad = "size == NULL: observed %r, expected %r" % (a, want)
             if bad:
                 mismatches.append({"key": "c-contract", "what": "%s: %s" % (c, bad), "failing_input": {"command": c, "observed": a[:400]}})
-            elif len(samples) < 5 and t[0] != "NULLSIZE":
+            elif len(samples) < 5 and t[0] not in ("NULLSIZE", "PRESIZE"):
                 samples.append({"command": c, "observed": a[:160]})
     # the array entry points for all 14 type codes (shared with C06)
     sub = C06.correspond(ctx, scale=1)
